@@ -17,7 +17,7 @@ def trace_key(e): return json.dumps(e.get("trace"), sort_keys=True)
 
 def first_trace_diff(a, b):
     if a is None or b is None: return "no trace (%s)" % ("reference" if a is None else "this execution")
-    for k in ("results", "host", "pages", "memsum", "g0", "memmin", "memmax"):
+    for k in ("results", "peeks", "hostreads", "host", "pages", "memsum", "g0", "memmin", "memmax"):
         if a[k] != b[k]:
             if isinstance(a[k], list):
                 for i, (x, y) in enumerate(zip(a[k], b[k])):
@@ -49,7 +49,7 @@ def run(tier, seed):
         return ck.finish()
     # a guest that cannot be stopped (code without termination checks served to a runtime that asked for them) freezes the whole
     # process at the next garbage collection: bound the run and name the rows that were running
-    rc, out = sh([binp, "-seed", str(seed), "-n", str(nprog), "-rows", str(rows)], timeout=90 if tier == "quick" else 2400)
+    rc, out = sh([binp, "-seed", str(seed), "-n", str(nprog), "-rows", str(rows)], timeout=300 if tier == "quick" else 3000)
     recs = [json.loads(ln) for ln in out.split("\n") if ln.startswith("{")]
     limits = [r for r in recs if r["t"] == "limits"]
     ids = [r for r in recs if r["t"] == "id"]
@@ -155,7 +155,7 @@ def run(tier, seed):
         for e in es:
             cf = e["cfg"]
             bump(dist["engine"], e["engine"]); bump(dist["cache"], cf["cache"]); bump(dist["roles"], e["role"])
-            for f in ("capmax", "alloc", "debug", "custom", "listener", "closeondone"):
+            for f in ("capmax", "alloc", "moving", "debug", "custom", "listener", "closeondone"):
                 if cf[f]: bump(dist["flags_on"], f)
             t = e.get("trace")
             if t:
@@ -181,21 +181,34 @@ def run(tier, seed):
                 if e.get("spin") != "stopped":
                     report({"kind": "termination-not-honoured", **axis}, {"exec": e, "program": progs.get(pid)})
     # the sampled lattice really covers every pair of factor values
-    fac = ("cache", "capmax", "alloc", "debug", "custom", "listener", "closeondone")
-    lv = {f: ({"none", "mem", "dircold", "dirwarm", "memshared-ab", "memshared-ba", "dirshared-ab", "dirshared-ba"} if f == "cache" else {False, True}) for f in fac}
+    fac = ("cache", "capmax", "allocator", "debug", "custom", "listener", "closeondone")
+    lv = {f: {False, True} for f in fac}
+    lv["cache"] = {"none", "mem", "dircold", "dirwarm", "memshared-ab", "memshared-ba", "dirshared-ab", "dirshared-ba"}
+    lv["allocator"] = {"off", "fixed", "moving"}
+    def fv(r, f): return ("off" if not r["alloc"] else "moving" if r["moving"] else "fixed") if f == "allocator" else r[f]
     missing = [(f1, a, f2, b) for i, f1 in enumerate(fac) for f2 in fac[i + 1:] for a in lv[f1] for b in lv[f2]
-               if not any(r[f1] == a and r[f2] == b for r in lat)]
+               if not any(fv(r, f1) == a and fv(r, f2) == b for r in lat)]
+    # ... and the fixed rows pair capacity-from-max true/false over every shared cache in both orders, and the moving allocator with capacity-from-max
+    fixed_rows = next((r.get("fixed") or [] for r in recs if r["t"] == "lattice"), [])
+    want = {(cm, x) for cm in ("memshared-ab", "memshared-ba", "dirshared-ab", "dirshared-ba") for x in (False, True)}
+    have = {(a["cache"], a["capmax"]) for a, b in fixed_rows if a["capmax"] != b["capmax"]}
+    if not want <= have or not any(a["alloc"] and a["moving"] and a["capmax"] for a, b in fixed_rows):
+        missing.append(("fixed-rows", sorted(want - have)))
+    dist["fixed_rows"] = len(fixed_rows)
     dist["pairwise_pairs_missing"] = len(missing)
     if missing:
         ck.violation("lattice-not-covering", {"kind": "lattice-not-covering"}, {"missing": missing[:10]}, no_input=True)
     ck.dist = dist
     ck.distinct = len(distinct)
-    ck.samples = [dict(prog=e["prog"], engine=e["engine"], cfg=e["cfg"], role=e["role"], results=(e.get("trace") or {}).get("results", [])[:4],
-                       host=(e.get("trace") or {}).get("host", [])[:4], lsn=e["lsn"]) for e in execs[30:33]]
-    ck.extra["rule"] = ("generated integer programs (arithmetic, loops, memory load/store/grow, globals, internal calls, a logging host import, one trapping path) "
+    ck.samples = [dict(prog=e["prog"], engine=e["engine"], cfg=e["cfg"], role=e["role"], results=((e.get("trace") or {}).get("results") or [])[:4],
+                       host=((e.get("trace") or {}).get("host") or [])[:4], lsn=e["lsn"]) for e in execs[30:33]]
+    ck.extra["rule"] = ("generated integer programs (arithmetic, loops, memory load/store/grow, globals, internal calls, a logging host import, trapping paths, and the "
+                        "store / grow (direct, via a callee, via the host) / store-to-the-same-address shape, also as 9 fixed programs) "
                         "x pairwise-covering sample of {cache none/mem/dir cold/dir warm/shared in memory or on disk between two live runtimes with different "
-                        "settings, both orders} x capacity-from-max x allocator x debug info x custom sections x listener x close-on-context-done x both engines; "
-                        "oracle: every trace (results, trap class, host-call log, final memory digest/pages, global, memory definition) equals the reference; "
+                        "settings, both orders} x capacity-from-max x allocator (none, in place, moving) x debug info x custom sections x listener x close-on-context-done x both engines; "
+                        "plus fixed rows sharing a cache between two live runtimes that differ only in capacity-from-max, in both orders, and the moving allocator "
+                        "with capacity-from-max; oracle: every trace (results, trap class, peek calls and host reads after every call, host-call log, final memory "
+                        "digest/pages, global, memory definition) equals the reference; "
                         "listener event counts and a termination probe show each runtime got code instrumented for its own settings; "
                         "distinct by (program, engine, settings, role)")
     ck.extra["violation_classes"] = classes
